@@ -11,6 +11,7 @@ either order; pandas and polars.
 """
 from __future__ import annotations
 
+import itertools
 import json
 import warnings
 
@@ -491,6 +492,68 @@ def run_cases(rep, cases, rng):
                     break
 
 
+def check_fp(c):
+    return [c.name, sorted((k, repr(v)) for k, v in (c.statistics or {}).items()), c.ignore_na, c.raise_warning,
+            c.n_failure_cases, bool(c.element_wise)]
+
+
+FIELD_FORMS = [("int", "ge", "3"), ("int", "in_range", "{'min_value': 1, 'max_value': 5}"), ("int", "isin", "[1, 2, 3]"),
+               ("int", "notin", "[7]"), ("int", "eq", "4"), ("float", "lt", "2.5"),
+               ("float", "in_range", "{'min_value': 0.0, 'max_value': 1.0, 'include_min': False}"),
+               ("str", "str_length", "{'min_value': 1, 'max_value': 4}"), ("str", "str_length", "{'max_value': 3}"),
+               ("str", "str_startswith", "'a'"), ("str", "isin", "['na', 'b']"), ("str", "str_matches", "'^a'")]
+CHECK_OPTS = [{}, {"ignore_na": False}, {"raise_warning": True}, {"n_failure_cases": 1}, {"ignore_na": False, "raise_warning": True}]
+EXTRA_FORMS = [("isin", "[0, 1, 2, 3]"), ("notin", "['na']"), ("notin", "[7, 8]"), ("in_range", "(0, 5)"),
+               ("in_range", "{'min_value': 0, 'max_value': 5}"), ("ge", "0"), ("str_length", "(1, 3)"),
+               ("eq", "'x'")]
+
+
+def forms_sweep(rep):
+    """every way of spelling a built-in check in a model — a `Field` keyword with a scalar, a list or a dict of arguments,
+    with and without the check options, and a `Config` attribute with a scalar, list, tuple or dict — compiles to the
+    check the object API builds from the same arguments (pandas and polars models, own class and inherited)"""
+    import pandera as pa
+    import pandera.polars as pap
+    for mod, label in ((pa, "pandas"), (pap, "polars")):
+        for (dt, name, arg), opts in itertools.product(FIELD_FORMS, CHECK_OPTS):
+            c = {"forms": "Field", "backend": label, "dtype": dt, "check": name, "arg": arg, "opts": opts}
+            src = (f"class M(pa.DataFrameModel):\n    a: {dt} = pa.Field({name}={arg}"
+                   + "".join(f", {k}={v!r}" for k, v in opts.items()) + ")\nclass N(M):\n    b: int\n")
+            ns = {"pa": mod}
+            try:
+                exec(compile(src, "<c16-forms>", "exec", dont_inherit=True), ns)  # noqa: S102
+                val = eval(arg)  # noqa: S307
+                want = getattr(mod.Check, name)(**val, **opts) if isinstance(val, dict) else getattr(mod.Check, name)(val, **opts)
+                got = [[check_fp(x) for x in ns[k].to_schema().columns["a"].checks] for k in ("M", "N")]
+            except Exception as e:  # noqa: BLE001
+                rep.property_failure(c, f"{label} model with Field({name}={arg}, {opts}): {type(e).__name__}: {str(e)[:100]}")
+                continue
+            rep.evaluations += 1
+            rep.count(f"forms:Field:{label}")
+            if got != [[check_fp(want)]] * 2:
+                rep.property_failure(c, f"{label}: Field({name}={arg}, {opts}) compiles to {got[0]} (subclass: {got[1]}); "
+                                        f"Check.{name} with the same arguments is {check_fp(want)}")
+        for name, arg in EXTRA_FORMS:
+            c = {"forms": "Config", "backend": label, "check": name, "arg": arg}
+            src = (f"class M(pa.DataFrameModel):\n    a: int\n    class Config:\n        {name} = {arg}\n"
+                   f"class N(M):\n    b: int\n    class Config:\n        strict = False\n")
+            ns = {"pa": mod}
+            try:
+                val = eval(arg)  # noqa: S307
+                want = (getattr(mod.Check, name)(*val) if isinstance(val, tuple) else
+                        getattr(mod.Check, name)(**val) if isinstance(val, dict) else getattr(mod.Check, name)(val))
+                exec(compile(src, "<c16-forms>", "exec", dont_inherit=True), ns)  # noqa: S102
+                got = [[check_fp(x) for x in ns[k].to_schema().checks] for k in ("M", "N")]
+            except Exception as e:  # noqa: BLE001
+                rep.property_failure(c, f"{label} model with Config.{name} = {arg}: {type(e).__name__}: {str(e)[:100]}")
+                continue
+            rep.evaluations += 1
+            rep.count(f"forms:Config:{label}")
+            if got != [[check_fp(want)]] * 2:
+                rep.property_failure(c, f"{label}: Config.{name} = {arg} compiles to {got[0]} (subclass: {got[1]}); "
+                                        f"Check.{name} with the same arguments is {check_fp(want)}")
+
+
 def run(tier, replay=None):
     rep = Report(PROP, tier)
     warm_up_backends()
@@ -500,11 +563,15 @@ def run(tier, replay=None):
     rng = rng_for(PROP)
     if replay:
         case = json.loads(open(replay).read())["case"]
-        run_cases(rep, [case], rng)
+        if case.get("forms"):
+            forms_sweep(rep)
+        else:
+            run_cases(rep, [case], rng)
         return rep.finish(rule="replay")
     n = 300 if tier == "quick" else 4000
     cases = corpus_cases(PROP) + [gen_chain(rng, "pandas") for _ in range(n)] + [gen_chain(rng, "polars") for _ in range(n // 4)]
     run_cases(rep, cases, rng)
+    forms_sweep(rep)
     return rep.finish(
         rule="linear class chains of depth 1-4 over four attributes: per class annotation + Field / bare annotation / bare "
              "Field override, Optional, Field options and own checks, aliases, @check / @dataframe_check / @parser methods "
